@@ -356,6 +356,103 @@ partial def implSk (inst : ScoreField F) (t : Expl F) : Option Sk :=
   | "" => if t.msg == "constant" then some (Sk.const t.value) else none
   | _ => none
 
+/-! ## the `dsearch` stream: logical corpus with deletions/updates, per-segment statistics -/
+
+structure DDoc where
+  id : String
+  fields : List AField
+
+/-- `w*k` stands for k copies of the word `w` -/
+def expandWords (ws : List String) : List String :=
+  ws.flatMap fun w => match w.splitOn "*" with
+    | [x, k] => List.replicate (k.toNat?.getD 1) x
+    | _ => [w]
+
+def dFields (all : Bool) (id bo ti : String) : List AField :=
+  let parts (name v : String) : List AField :=
+    if v == "-" then [] else (v.splitOn "+").map fun p => { name := name, tokens := if p == "" then [] else expandWords (p.splitOn ",") }
+  -- `bluge.NewDocument(id)` starts the document with the keyword field `_id` (one token), which a composite field consumes too
+  let fs := [{ name := "_id", tokens := [id] }] ++ parts "body" bo ++ parts "title" ti
+  if all then expandComposite "all" (fun _ => true) fs else fs
+
+/-- the logical documents after all batches: `id:body:title` replaces the document of that id, `!id` deletes it, `@q` is a pause -/
+def parseDCorpus (all : Bool) (s : String) : List DDoc :=
+  (s.splitOn "/").foldl (fun docs b =>
+    if b == "@q" then docs else
+    (b.splitOn ";").foldl (fun docs e =>
+      if e.startsWith "!" then docs.filter (·.id != strDrop e 1)
+      else match e.splitOn ":" with
+        | [id, bo, ti] => docs.filter (·.id != id) ++ [{ id := id, fields := dFields all id bo ti }]
+        | _ => docs) docs) []
+
+def cfgOf (s : String) : List (String × String) :=
+  (s.splitOn ",").filterMap fun p => match p.splitOn "=" with
+    | [k, v] => some (k, v)
+    | _ => none
+
+/-- `field|word=n/N/ttf/del+n/N/ttf/del;…` -> (key, per-segment statistics, per-segment deleted-bitmap sizes) -/
+def parseSeg1 (sg : String) : Option (SegStat × Nat) :=
+  match (sg.splitOn "/").mapM String.toNat? with
+  | some [n, bigN, ttf, del] => some (({ n := n, bigN := bigN, ttf := ttf } : SegStat), del)
+  | _ => none
+
+def parseSegs (s : String) : Option (List (String × List SegStat × List Nat)) :=
+  if s == "-" then some [] else
+  (s.splitOn ";").mapM fun (e : String) => match e.splitOn "=" with
+    | [k, v] =>
+      if v == "-" then some (k, [], []) else
+      match (v.splitOn "+").mapM parseSeg1 with
+      | some l => some (k, l.map (·.1), l.map (·.2))
+      | none => none
+    | _ => none
+
+partial def qMatchesD (d : DDoc) : Q → Bool
+  | .term f w _ => termFreq d.fields f w ≥ 1
+  | .bool _ mn musts shoulds nots =>
+      let k := (shoulds.filter (qMatchesD d)).length
+      !(shoulds.isEmpty && mn > 0) &&
+      musts.all (qMatchesD d) && !(nots.any (qMatchesD d)) &&
+        (if musts.isEmpty then
+           (if shoulds.isEmpty then true else k ≥ max mn 1)
+         else k ≥ mn)
+
+/-- n, f, dl from the LOGICAL corpus (live documents only); N from the recorded segments (it counts deleted documents
+until a merge drops them, which the logical corpus cannot know) -/
+partial def expectSkD (segTab : List (String × List SegStat × List Nat)) (docs : List DDoc) (d : DDoc) : Q → Sk
+  | .term f w boost =>
+      let n := (docs.filter fun x => termFreq x.fields f w ≥ 1).length
+      let bigN := match segTab.find? (fun e => e.1 == f ++ "|" ++ w) with
+        | some e => docCountOf e.2.1
+        | none => 0
+      Sk.score n bigN (termFreq d.fields f w) (fieldLength d.fields f) 0.0 boost
+  | .bool boost _ musts shoulds _ =>
+      let mustPart : List Sk :=
+        if musts.isEmpty then (if shoulds.isEmpty then [Sk.const 1.0] else [])
+        else [Sk.sum (musts.map (expectSkD segTab docs d))]
+      let sm := shoulds.filter (qMatchesD d)
+      let shouldPart : List Sk := if sm.isEmpty then [] else [Sk.sum (sm.map (expectSkD segTab docs d))]
+      let inner := Sk.sum (mustPart ++ shouldPart)
+      if boost == 1.0 then inner else Sk.boosted boost inner
+
+partial def Sk.renderD : Sk → String
+  | .score n bigN f dl _ boost => s!"S(n={n},N={bigN},f={f},dl={dl},boost={fbits boost})"
+  | .const v => s!"C({fbits v})"
+  | .sum ps => "Σ[" ++ " ".intercalate ((ps.map Sk.renderD).toArray.qsort (· < ·)).toList ++ "]"
+  | .boosted b i => s!"B({fbits b},{Sk.renderD i})"
+
+/-- `normrt lo hi`: the decode chain on every length of the range, as the model `dlSeen` sees it -/
+def normrtRange (lo hi : Nat) : Nat × Nat × List String := Id.run do
+  let mut sum := 0
+  let mut odd := 0
+  let mut firsts : Array String := #[]
+  for l in [lo:hi+1] do
+    let got := dlSeen l 0 false
+    sum := (sum + got) % 2 ^ 64
+    if got != l then
+      odd := odd + 1
+      if firsts.size < 6 then firsts := firsts.push s!"{l}>{got}"
+  return (sum, odd, firsts.toList)
+
 /-! ## the ops -/
 
 /-- `agree`: model result = implementation result. When they differ and the only failure is the (known) idf node, the
@@ -441,8 +538,14 @@ def c17step (_ : Unit) (op : String) (impl : String) : Unit × String :=
           let v := @gScore inst (@gScorerIdf inst k1 b avg boost idfv) f dl
           let m := fbits v
           let st : Stat := { k1 := k1, b := b, avgdl := avg, boost := boost, idf := idfv, n := 1, bigN := 1, f := f, dl := dl }
+          -- the corner b = 1 ∧ dl = 0 (`den_zero_iff`): 1/0 = +Inf; freq ≥ 1 saturates at the weight, freq = 0 gives 0·Inf = NaN
+          let corner : List String :=
+            if b == 1.0 && dl == 0 && k1 > 0 && avg > 0 && isFinite (boost * idfv) && boost * idfv > 0 then
+              (if f ≥ 1 then (if v == boost * idfv then ["den-zero-saturates"] else ["den-zero-other"])
+               else (if v.isNaN then ["den-zero-nan"] else ["den-zero-other"]))
+            else []
           match hypFail st with
-          | some hfail => (m, "na br=hyp-" ++ hfail)
+          | some hfail => (m, "na br=" ++ ",".intercalate (("hyp-" ++ hfail) :: corner))
           | none =>
             if !(idfv > 0) || !(isFinite idfv) || !(isFinite boost) then (m, "na br=hyp-idf")
             else
@@ -575,6 +678,86 @@ def c17step (_ : Unit) (op : String) (impl : String) : Unit × String :=
           let ids := ((parseCorpus corpus).flatten.filter (qMatches · q)).map (·.id)
           let ids := (ids.toArray.qsort (· < ·)).toList
           ((if ids.isEmpty then "-" else ",".intercalate ids), "ok br=" ++ (if ids.isEmpty then "matchset-empty" else "matchset-nonempty"))
+        | _ => ("model-cannot-parse", "ok")
+    | ["normrt", lo, hi] => match lo.toNat?, hi.toNat? with
+        | some lo, some hi =>
+          let (sum, odd, firsts) := normrtRange lo hi
+          (s!"{sum} {odd} {if firsts.isEmpty then "-" else ",".intercalate firsts}",
+            "ok br=" ++ (if odd == 0 then "normrt-identity" else if hi ≥ 2 ^ 32 then "normrt-uint32-wrap" else "normrt-nan-quieted"))
+        | _, _ => ("bad-op", "na")
+    | ["dhit", cfg, corpus, query, _kind, docid] =>
+        match splitHead impl 3 with
+        | [plainS, explS, segsS, treeS] => match parseExpl treeS, parseF explS, parseSegs segsS with
+          | some t, some es, some segTab =>
+            let inst := snapField ((idfNodes t).map (·.value))
+            let m := match rebuild inst t with
+              | some mt => fbits mt.value ++ " " ++ fbits mt.value ++ " " ++ segsS ++ " " ++ mt.render
+              | none => "model-cannot-rebuild"
+            let rootFail := (if parseF plainS |>.map (sameBits · t.value) |>.getD false then [] else ["explain-root-vs-score"]) ++
+              (if sameBits es t.value then [] else ["score-field-vs-explanation-root"])
+            let (fails, brs) := termTreeChecks inst t true
+            let kv := cfgOf cfg
+            let docs := parseDCorpus (kv.lookup "all" == some "1") corpus
+            -- the similarity of every term node is the configured one (default or the per-field one of `title`)
+            let simOk (k1 b : F) : Bool :=
+              let same (kk bk : String) : Bool := match (kv.lookup kk).bind parseF, (kv.lookup bk).bind parseF with
+                | some ck, some cb => sameBits ck k1 && sameBits cb b
+                | _, _ => false
+              same "k1" "b" || same "tk1" "tb"
+            let stats := (scoreNodes t).filterMap (statOf inst)
+            let simFail := if stats.all (fun s => simOk s.k1 s.b) then [] else ["similarity-params"]
+            -- per segment: the assumption on the plugin; per term node: its statistics are the sums over the segments and
+            -- `RealHitOk` (the hypothesis of `real_hit_score_pos_bounded`) holds
+            let segFail := if segTab.all (fun e => segsOk e.2.1) then [] else ["assumption-segment-n-le-N"]
+            let nodeFail' : List String := (stats.filterMap fun s =>
+              match segTab.find? (fun e => docFreqOf e.2.1 == s.n && docCountOf e.2.1 == s.bigN && sameBits (@gAvg inst (docCountOf e.2.1) (sumTtfOf e.2.1)) s.avgdl) with
+              | none => some "stats-not-sum-of-segments"
+              | some e => if RealHitOk e.2.1 s.f s.dl && dlSeen s.dl 0 false == s.dl then none else some "assumption-real-hit").eraseDups
+            let (partFail, partBr) : List String × List String :=
+              match docs.find? (·.id == docid), parseQ query.toList with
+              | some d, some (q, []) =>
+                if !(qMatchesD d q) then ([], ["model-says-no-match"])
+                else match implSk inst t with
+                  | none => (["parts:unreadable"], [])
+                  | some sk =>
+                    let want := expectSkD segTab docs d q
+                    if sk.renderD == want.renderD then ([], ["d-stats-as-logical-corpus"])
+                    else ([s!"parts:want={want.renderD}:got={sk.renderD}"], [])
+              | _, _ => ([], ["model-cannot-parse"])
+            let segBr := (if segTab.any (fun e => e.2.1.length > 1) then ["d-multi-segment"] else ["d-single-segment"]) ++
+              (if segTab.any (fun e => e.2.2.any (· > 0)) then ["d-pending-deletions"] else ["d-no-pending-deletions"]) ++
+              (if stats.any (fun s => s.n < s.bigN) then ["d-n-lt-N"] else []) ++
+              (if stats.any (fun s => s.n == s.bigN) then ["d-n-eq-N"] else []) ++
+              (if stats.any (fun s => s.b == 1.0) then ["d-b1"] else []) ++
+              (if stats.any (fun s => s.b == 0.0) then ["d-b0"] else []) ++
+              (if segTab.any (fun e => e.1.startsWith "all|") then ["d-composite-field"] else []) ++
+              (if (kv.lookup "v") == some "2" then ["d-ice-v2"] else ["d-ice-v1"]) ++
+              (if (kv.lookup "dir") == some "fs" then ["d-fs"] else ["d-mem"]) ++
+              (if (kv.lookup "mg") == some "1" then ["d-merging"] else ["d-no-merging"]) ++
+              (if (scoreNodes t).isEmpty then ["d-hit-constant-only"] else ["d-hit-scored"])
+            (m, verdictOf (m == impl) (rootFail ++ fails ++ simFail ++ segFail ++ nodeFail' ++ partFail) (ulpBranch (logUlp t) :: brs ++ partBr ++ segBr))
+          | _, _, _ => ("unparsable-tree", "ok")
+        | _ => ("unparsable-result", "ok")
+    | ["nscore", cfg, corpus, field, word] =>
+        -- score mode "none": the scorer is called with freq = 0 and norm = 0 whatever the document (fact
+        -- `freq-norm-loaded-unless-score-none`); the generated `Score` then gives w - w/(1 + 0·normInverse): 0 for b < 1, NaN for b = 1
+        let kv := cfgOf cfg
+        match (kv.lookup "k1").bind parseF, (kv.lookup "b").bind parseF with
+        | some k1, some b =>
+          let inst := plainField
+          let v := @gScore inst (@gScorerIdf inst k1 b 1.0 1.0 1.0) 0 0
+          let docs := parseDCorpus (kv.lookup "all" == some "1") corpus
+          let ids := ((docs.filter fun d => termFreq d.fields field word ≥ 1).map (·.id)).toArray.qsort (· < ·) |>.toList
+          ((if ids.isEmpty then "-" else ",".intercalate (ids.map fun i => i ++ "=" ++ fbits v)),
+            "ok br=" ++ (if ids.isEmpty then "score-none-no-hit" else if v.isNaN then "score-none-nan" else if v == 0 then "score-none-zero" else "score-none-other"))
+        | _, _ => ("bad-op", "na")
+    | ["dmatchset", cfg, corpus, query, _kind] =>
+        match parseQ query.toList with
+        | some (q, []) =>
+          let docs := parseDCorpus ((cfgOf cfg).lookup "all" == some "1") corpus
+          let ids := (docs.filter (qMatchesD · q)).map (·.id)
+          let ids := (ids.toArray.qsort (· < ·)).toList
+          ((if ids.isEmpty then "-" else ",".intercalate ids), "ok br=" ++ (if ids.isEmpty then "dmatchset-empty" else "dmatchset-nonempty"))
         | _ => ("model-cannot-parse", "ok")
     | "case" :: _ => ("case", "na")
     | _ => ("bad-op", "na")
